@@ -5,6 +5,7 @@ import (
 	"errors"
 	"flag"
 	"fmt"
+	"io"
 	"os"
 	"os/exec"
 	"strconv"
@@ -29,7 +30,8 @@ var (
 	vEvents     []string
 	vExitCode   int
 	vLayer      int
-	vParsed     *seccomp.Policy
+	vParseTried bool
+	vFlagNNP    bool
 	vParseErr   bool
 	vLoadErr    bool
 	vLoaded     seccomp.Filter
@@ -49,6 +51,9 @@ func vTick() int { vClock++; return vClock }
 func vstubStringVar(p *string, name, value, usage string) { *p = value }
 func vstubBoolVar(p *bool, name string, value bool, usage string) {
 	*p = vBool("flag." + name)
+	if name == "no-new-privs" {
+		vFlagNNP = *p
+	}
 }
 func vstubFlagParse()         {}
 func vstubFlagArgs() []string { return vArgs }
@@ -61,32 +66,15 @@ func vMakePolicy() *seccomp.Policy {
 	return &seccomp.Policy{DefaultAction: seccomp.Action(vU32("pol.def")), Syscalls: []seccomp.SyscallGroup{{Names: []string{name, "write"}, Action: seccomp.Action(vU32("pol.act"))}}}
 }
 
-// layer 0: parsePolicy itself is the stub; otherwise the real function runs
-// (with the config library stubbed below).
-func vstubParsePolicy() (*seccomp.Policy, error) {
-	if vLayer != 0 {
-		p, err := parsePolicy()
-		vParseAt = vTick()
-		vParsed, vParseErr = p, err != nil
-		return p, err
-	}
-	vParseAt = vTick()
-	if vChoice("parse.fails", 2) == 1 {
-		vParseErr = true
-		if vChoice("parse.returns_garbage", 2) == 1 {
-			// a failing parser may still return a pointer
-			return vMakePolicy(), errors.New("parse error")
-		}
-		return nil, errors.New("parse error")
-	}
-	vParsed = vMakePolicy()
-	return vParsed, nil
-}
-
 var vUnpackPolicy *seccomp.Policy
 
+// The harness binds to nothing of the command but main(): parsing is observed at the configuration
+// library (a parse succeeded when NewConfigWithFile and Unpack both did), the no-new-privs option at
+// the flag stubs.
 func vstubNewConfigWithFile(name string, opts ...ucfg.Option) (*ucfg.Config, error) {
+	vParseTried = true
 	if vChoice("file.missing_or_malformed", 2) == 1 {
+		vParseErr = true
 		return nil, errors.New("open/parse failed")
 	}
 	return &ucfg.Config{}, nil
@@ -94,10 +82,12 @@ func vstubNewConfigWithFile(name string, opts ...ucfg.Option) (*ucfg.Config, err
 
 func vstubUnpack(c *ucfg.Config, to interface{}, opts ...ucfg.Option) error {
 	if vChoice("unpack.fails", 2) == 1 {
+		vParseErr = true
 		return errors.New("unpack failed")
 	}
 	vUnpackPolicy = vMakePolicy()
 	vSetField0(to, *vUnpackPolicy)
+	vParseAt = vTick()
 	return nil
 }
 
@@ -170,6 +160,22 @@ func vstubFSStringVar(fs *flag.FlagSet, p *string, name, value, usage string) {
 func vstubFSBoolVar(fs *flag.FlagSet, p *bool, name string, value bool, usage string) {
 	vstubBoolVar(p, name, value, usage)
 }
+func vstubFSSetOutput(fs *flag.FlagSet, w io.Writer) {}
+func vstubFSPrintDefaults(fs *flag.FlagSet)            {}
+func vstubFSString(fs *flag.FlagSet, name, value, usage string) *string {
+	p := new(string)
+	vstubStringVar(p, name, value, usage)
+	return p
+}
+func vstubFSBool(fs *flag.FlagSet, name string, value bool, usage string) *bool {
+	p := new(bool)
+	vstubBoolVar(p, name, value, usage)
+	return p
+}
+func vstubFlagString(name, value, usage string) *string { return vstubFSString(nil, name, value, usage) }
+func vstubFlagBool(name string, value bool, usage string) *bool {
+	return vstubFSBool(nil, name, value, usage)
+}
 func vstubFSParse(fs *flag.FlagSet, args []string) error { return nil }
 func vstubFSArgs(fs *flag.FlagSet) []string              { return vArgs }
 func vstubFSNArg(fs *flag.FlagSet) int                   { return len(vArgs) }
@@ -197,7 +203,7 @@ func vstubExit(code int) {
 }
 
 // H_SandboxMain: C15. main() is executed over every combination of failures
-// of its environment. Parameters: layer (0 parsePolicy stubbed, 1 config
+// of its environment. Parameters: layer (1 config
 // library stubbed, 2 real LoadFilter on a kernel-contract stub, with
 // badsyscall = 1 naming an unknown syscall), argc.
 func H_SandboxMain() {
@@ -208,7 +214,8 @@ func H_SandboxMain() {
 	for i := 0; i < argc; i++ {
 		vArgs = append(vArgs, "target"+strconv.Itoa(i))
 	}
-	vEvents, vExitCode, vParsed, vParseErr, vLoadErr, vLoadCalls, vExecCalls, vClock = nil, -1, nil, false, false, 0, 0, 0
+	vEvents, vExitCode, vParseTried, vParseErr, vLoadErr, vLoadCalls, vExecCalls, vClock = nil, -1, false, false, false, 0, 0, 0
+	vUnpackPolicy = nil
 	vParseAt, vLoadAt, vExecAt = 0, 0, 0
 
 	code := vRun(main)
@@ -234,10 +241,7 @@ func H_SandboxMain() {
 		vAssert(vLoadCalls >= 1 && !vLoadErr, "C15.exec_needs_load")
 		vAssert(vParseAt < vLoadAt && vLoadAt < vExecAt, "C15.order")
 		// the filter handed over is the parsed policy, thread-synced, with the flag's no_new_privs
-		pol := vParsed
-		if vLayer != 0 {
-			pol = vUnpackPolicy
-		}
+		pol := vUnpackPolicy
 		if pol != nil {
 			same := vAnd(vLoaded.Policy.DefaultAction == pol.DefaultAction, len(vLoaded.Policy.Syscalls) == len(pol.Syscalls))
 			if len(vLoaded.Policy.Syscalls) == 1 && len(pol.Syscalls) == 1 {
@@ -256,7 +260,7 @@ func H_SandboxMain() {
 			vAssert(false, "C15.policy_passed")
 		}
 		vAssert(vLoaded.Flag&seccomp.FilterFlagTSync != 0, "C15.tsync")
-		vAssert(vLoaded.NoNewPrivs == noNewPrivs, "C15.nnp_flag")
+		vAssert(vLoaded.NoNewPrivs == vFlagNNP, "C15.nnp_flag")
 		vAssert(vExecName == vArgs[0] && len(vExecArgs) == argc-1, "C15.target")
 	}
 	if vParseErr || vLoadErr || (vParseAt == 0) {
